@@ -490,28 +490,73 @@ def run_call_mode(ctx):
 _HOT = {}
 
 
+_CONTAINER_CALLS = {"set", "dict", "list", "defaultdict", "OrderedDict", "deque", "Counter", "WeakKeyDictionary", "WeakValueDictionary", "WeakSet"}
+
+
+def _is_container(v):
+    import ast
+    if isinstance(v, (ast.List, ast.Dict, ast.Set, ast.ListComp, ast.DictComp, ast.SetComp)):
+        return True
+    if isinstance(v, ast.Call):
+        f = v.func
+        name = f.id if isinstance(f, ast.Name) else (f.attr if isinstance(f, ast.Attribute) else None)
+        return name in _CONTAINER_CALLS
+    return False
+
+
 def hot_codes():
-    """code objects of einx functions that assign module-level variables (STORE_GLOBAL): state shared by all threads"""
+    """code objects of einx functions that touch state shared by all threads, found in /repo's current source: functions that assign
+    module-level variables (STORE_GLOBAL), that assign variables of an enclosing function (nonlocal: state of long-lived closures such
+    as decorators), that read a module-level container of their module, or that use an attribute which some class defines as a
+    class-level container (one object for all instances and threads)"""
     if "set" not in _HOT:
+        import ast
         import dis
         import glob as _glob
         found = set()
-        for path in _glob.glob(common.REPO.rstrip("/") + "/einx/**/*.py", recursive=True):
+        paths = _glob.glob(common.REPO.rstrip("/") + "/einx/**/*.py", recursive=True)
+        class_attrs, module_containers, sources = set(), {}, {}
+        for path in paths:
             try:
-                top = compile(open(path).read(), path, "exec")
+                sources[path] = open(path).read()
+                tree = ast.parse(sources[path])
             except (SyntaxError, OSError):
+                continue
+            module_containers[path] = set()
+            for node in tree.body:
+                if isinstance(node, ast.Assign) and _is_container(node.value):
+                    module_containers[path] |= {t.id for t in node.targets if isinstance(t, ast.Name)}
+            for node in ast.walk(tree):
+                if isinstance(node, ast.ClassDef):
+                    for b in node.body:
+                        if isinstance(b, ast.Assign) and _is_container(b.value):
+                            class_attrs |= {t.id for t in b.targets if isinstance(t, ast.Name)}
+                        elif isinstance(b, ast.AnnAssign) and b.value is not None and _is_container(b.value) and isinstance(b.target, ast.Name):
+                            class_attrs.add(b.target.id)
+        for path, text in sources.items():
+            try:
+                top = compile(text, path, "exec")
+            except SyntaxError:
                 continue
             todo = [top]
             while todo:
                 co = todo.pop()
                 todo.extend(c for c in co.co_consts if hasattr(c, "co_code"))
-                if co is not top and any(i.opname in ("STORE_GLOBAL", "DELETE_GLOBAL") for i in dis.get_instructions(co)):
-                    found.add((co.co_filename, co.co_name, co.co_firstlineno))
+                if co is top:
+                    continue
+                for i in dis.get_instructions(co):
+                    if (i.opname in ("STORE_GLOBAL", "DELETE_GLOBAL")
+                            or (i.opname in ("STORE_DEREF", "DELETE_DEREF") and i.argval in co.co_freevars)
+                            or (i.opname in ("LOAD_ATTR", "LOAD_METHOD", "STORE_ATTR") and i.argval in class_attrs)
+                            or (i.opname in ("LOAD_GLOBAL", "LOAD_NAME") and i.argval in module_containers.get(path, ()))):
+                        found.add((co.co_filename, co.co_name, co.co_firstlineno))
+                        break
         _HOT["set"] = found
+        _HOT["class_attrs"], _HOT["module_containers"] = sorted(class_attrs), {k: sorted(v) for k, v in module_containers.items() if v}
     return _HOT["set"]
 
 
-def single_preemption(body_a, body_b, pause_index, suffixes, hot_only=False, pause_a=None):
+def single_preemption(body_a, body_b, pause_index, suffixes, hot_only=False, pause_a=None, pause_line=None):
     """thread B runs body_b; before its pause_index-th source line inside the files named by [suffixes] it stops, thread A runs
     body_a to the end, B continues.  -> (result A, result B, number of such lines B executed)"""
     import einx._src.frontend.backend as B
@@ -532,10 +577,18 @@ def single_preemption(body_a, body_b, pause_index, suffixes, hot_only=False, pau
         except BaseException as e:  # noqa: BLE001
             return ("exc", common.classify_exc(e), common.exc_site(e), str(e)[:300])
 
+    fired = [False]
+
     def local(frame, event, arg):
         if event == "line":
             count[0] += 1
-            if count[0] == pause_index and not lock_owned():
+            if pause_line is not None:
+                # stop before the first execution of one particular source line
+                if not fired[0] and frame.f_lineno == pause_line[1] and frame.f_code.co_filename.endswith(pause_line[0]) and not lock_owned():
+                    fired[0] = True
+                    paused.set()
+                    a_done.wait(60.0)
+            elif count[0] == pause_index and not lock_owned():
                 paused.set()
                 a_done.wait(60.0)
         return local
@@ -671,6 +724,27 @@ def _preempt_case(item):
             out.append(({"kind": "with_stack_not_restored"}, {"pause_before_line_event": pause, "schedule": kind}))
             B.registry.state.use_stack.clear()
         return n, out
+    if kind == "first_time_calls_every_line":
+        # a first-time call (parsed, solved, traced, compiled, cached anew) is stopped before one source line anywhere in einx;
+        # another first-time call of the same operation with another signature runs to its end in between; afterwards both calls
+        # are repeated (now cache hits) - everything must be what the calls return alone
+        n1, n2 = 2 + 2 * k, 3 + 2 * k
+        x, y = np.arange(n1 * 3, dtype=np.int64).reshape(n1, 3), np.arange(n2 * 5, dtype=np.int64).reshape(n2, 5) + 1
+        desc = "a b -> b"
+        ra, rb, n = single_preemption(lambda: call("sum", desc, y), lambda: call("sum", desc, x), None, ("",), pause_line=tuple(pause))
+        later = []
+        for arr in (y, x, y):
+            try:
+                later.append(call("sum", desc, arr))
+            except BaseException as e:  # noqa: BLE001
+                later.append(("exc", common.classify_exc(e), common.exc_site(e), str(e)[:300]))
+        for who, r, arr in (("stopped thread", rb, x), ("other thread", ra, y), ("repeat afterwards", later[0], y), ("repeat afterwards", later[1], x),
+                            ("repeat afterwards", later[2], y)):
+            exp = arr.sum(axis=0)
+            if r[0] != "ok" or r[1].shape != exp.shape or not np.array_equal(r[1], exp):
+                out.append(({"kind": "first_time_call_fails_next_to_another", "exc": r[1] if r[0] == "exc" else "wrong value", "who": who},
+                            {"stopped_before": list(pause), "call": f"einx.sum('{desc}', array of shape {arr.shape})", "detail": str(r)[:400]}))
+        return n, out
     # two first-time calls whose descriptions contain several anonymous axes, stopped inside the parser
     n1, n2 = 2 + k, 20000 + k                                  # fresh shapes (k is unique per schedule): both calls are traced anew
     x, y = np.arange(n1, dtype=np.int64), np.arange(n2, dtype=np.int64)
@@ -690,6 +764,31 @@ def _preempt_case(item):
             out.append(({"kind": "first_time_call_fails_next_to_another", "exc": r[1] if r[0] == "exc" else "wrong value"},
                         {"pause_before_line_event": pause, "files": ["stage1/parse.py", "stage1/tree.py"], "call": f"einx.id('{d}', arange(n))", "detail": str(r)[:400]}))
     return n, out
+
+
+def distinct_lines_of_first_time_call():
+    """every (file, line) of einx that a first-time einx.sum call executes, in order of first execution"""
+    import einx
+    src = common.REPO.rstrip("/") + "/einx/"
+    seen, order = set(), []
+
+    def local(frame, event, arg):
+        if event == "line":
+            key = (frame.f_code.co_filename[len(src):], frame.f_lineno)
+            if key not in seen:
+                seen.add(key)
+                order.append(key)
+        return local
+
+    def glob(frame, event, arg):
+        return local if event == "call" and frame.f_code.co_filename.startswith(src) else None
+    einx.sum("a b -> b", np.ones((3, 4)))                    # imports, first-use initialisation
+    sys.settrace(glob)
+    try:
+        einx.sum("a b -> b", np.arange(77 * 2).reshape(77, 2))
+    finally:
+        sys.settrace(None)
+    return [list(x) for x in order]
 
 
 def run_preemption_mode(ctx):
@@ -715,7 +814,14 @@ def run_preemption_mode(ctx):
             k += 1
         stats["preemption_points_" + kind] = len(pts)
         stats["line_events_" + kind] = total
-    res = common.pmap(_preempt_case, items, procs=4)
+    every = distinct_lines_of_first_time_call()
+    if not quick:
+        every = every + every                                   # thorough: every line twice (other shapes, other worker state)
+    stats["preemption_points_first_time_calls_every_line"] = len(every)
+    for fl in every:
+        items.append(("first_time_calls_every_line", k, fl))
+        k += 1
+    res = common.pmap(_preempt_case, items, procs=8)
     for it, (n, viol) in zip(items, res):
         for tags, payload in viol:
             ctx.report(tags, {**payload, "case": list(it)})
